@@ -33,7 +33,7 @@ CONFIGS = [
     ('hierarchical', 'e', 'arith'), ('hierarchical', 'f', 'late'),
     ('hybrid', 'f', 'late'), ('hierarchical', 'f', 'latemix'),
     ('hierarchical', 'n', 'latemix'), ('hierarchical', 'n', 'all'),
-    ('hierarchical', 'a', 'all'),
+    ('hierarchical', 'a', 'all'), ('hybrid', 'h', 'binred'),
 ]
 
 
